@@ -1376,13 +1376,16 @@ static void run_rounds(const char* wl, int rounds, int recover_after /* round af
 static int c18_midclock = 0, c18_gentle = 0;
 static const char* c18_pattern = "pages"; static long c18_step = 0; static int c18_abandoned = 0;
 /* phases 1 and 2 of the C18 workload (by the main thread, or by a thread that exits afterwards: variant "abandoned") */
+static int c18_phase = 0;      /* 0: build and free; 1: build only (the thread then exits with everything live); 2: free only (by another thread) */
 static void c18_build_and_free(void) {
 #if defined(VF_SHIM)
   const char* pattern = c18_pattern; long step_ms = c18_step;
   int immediate = (mi_option_get(mi_option_purge_delay) == 0);
-  int base = next_id - 1;
+  static int base_saved = 0;
+  int base = (c18_phase == 2 ? base_saved : next_id - 1); base_saved = base;
   /* phase 1: build up */
-  if (!strcmp(pattern, "pages")) { alloc_many(200, 8000, 8192, 0); alloc_many(40, 30000, 32768, 0); }
+  if (c18_phase == 2) { }
+  else if (!strcmp(pattern, "pages")) { alloc_many(200, 8000, 8192, 0); alloc_many(40, 30000, 32768, 0); }
   else if (!strcmp(pattern, "segments")) { alloc_many(100, 900000, 1048576, 0); }
   else if (!strcmp(pattern, "huge")) { alloc_many(5, (size_t)17 << 20, (size_t)40 << 20, 0);        /* single-block segments */
                                        if (mi_option_get(mi_option_purge_delay) < 0) {      /* purging disabled: also the two places where huge blocks are reset directly */
@@ -1392,6 +1395,7 @@ static void c18_build_and_free(void) {
                                          if (a_ >= 0) op_free_slot(a_, FR_free);
                                        } }
   else { alloc_many(150, 8000, 8192, 0); alloc_many(70, 900000, 1048576, 0); alloc_many(100, 100, 1000, 0); }
+  if (c18_phase == 1) return;
   ev_areas();
   vf_clock_advance(3);
   /* phase 2: free (whole pages while the segment stays / whole segments / everything) */
@@ -1468,7 +1472,10 @@ static void run_c18(const char* pattern, long step_ms) {
        the main thread has pages with room of its own, so its later activity needs no fresh segment */
     alloc_many(24, 8000, 8192, 0);
     worker_t w; memset(&w, 0, sizeof(w)); w.t = next_thread_id++; w.heapid = next_heap_id++;
+    if (c18_abandoned == 2) c18_phase = 1;      /* variant abandoned2: the thread only builds up and exits with everything live ... */
     pthread_t th; pthread_create(&th, NULL, c18_worker_main, &w); pthread_join(th, NULL);
+    if (c18_abandoned == 2) { c18_phase = 2; c18_build_and_free(); c18_phase = 0; }      /* ... the main thread frees the pages (into the abandoned segments): they are
+                                                                                           released when a later (non-forced) collect looks at those segments */
   }
   else c18_build_and_free();
   ev_mark("t0");
